@@ -262,6 +262,8 @@ def nonconf_recipes(tk):
             # a ready-made (unparameterised) keyed container: already of the declared container class, only its items are wrong
             for bad, tag in elem_nonconf(t.elem):
                 out.append((["klist_raw", [good, bad]], f"ready_made_element:{tag}"))
+            # ... or only the keys it goes by are (an int-valued key function where the declared key type is str)
+            out.append((["klist_rawint", [good, elem_conf(t.elem, __import__("random").Random(2), "b")]], "ready_made_key:int_for_str"))
     elif t.kind == "dict":
         good = elem_conf(t.elem, __import__("random").Random(1), "a")
         for bad, tag in elem_nonconf(t.elem):
@@ -279,6 +281,7 @@ def nonconf_recipes(tk):
         if t.kind == "kset":
             for bad, tag in elem_nonconf(t.elem):
                 out.append((["kset_raw", [good, bad]], f"ready_made_element:{tag}"))
+            out.append((["kset_rawint", [good, elem_conf(t.elem, __import__("random").Random(2), "b")]], "ready_made_key:int_for_str"))
     return out
 
 
@@ -288,6 +291,8 @@ def build_ext(recipe, ns):
         return {build_ext(k, ns): build_ext(v, ns) for k, v in recipe[1]}
     if recipe[0] in ("klist_raw", "kset_raw"):
         return ns["KeyedList" if recipe[0] == "klist_raw" else "KeyedSet"]([build_ext(r, ns) for r in recipe[1]], key=ns["rawkey"])
+    if recipe[0] in ("klist_rawint", "kset_rawint"):
+        return ns["KeyedList" if recipe[0] == "klist_rawint" else "KeyedSet"]([build_ext(r, ns) for r in recipe[1]], key=ns["rawkey_int"])
     if recipe[0] == "list":
         return [build_ext(r, ns) for r in recipe[1]]
     if recipe[0] == "dict":
@@ -300,6 +305,8 @@ def src_ext(recipe):
         return "{" + ", ".join(f"{src_ext(k)}: {src_ext(v)}" for k, v in recipe[1]) + "}"
     if recipe[0] in ("klist_raw", "kset_raw"):
         return ("KeyedList" if recipe[0] == "klist_raw" else "KeyedSet") + "([" + ", ".join(src_ext(r) for r in recipe[1]) + "], key=rawkey)"
+    if recipe[0] in ("klist_rawint", "kset_rawint"):
+        return ("KeyedList" if recipe[0] == "klist_rawint" else "KeyedSet") + "([" + ", ".join(src_ext(r) for r in recipe[1]) + "], key=rawkey_int)"
     if recipe[0] == "list":
         return "[" + ", ".join(src_ext(r) for r in recipe[1]) + "]"
     if recipe[0] == "dict":
@@ -520,6 +527,10 @@ class Opaque:
 def rawkey(x):
     k = getattr(x, "k", None)
     return k if isinstance(k, str) else f"<{x!r}>"
+
+
+def rawkey_int(x):
+    return sum(map(ord, str(getattr(x, "k", "")))) + 1000
 """
 
 LEAF_SRC = """
